@@ -63,10 +63,19 @@ Inductive event :=
 | ESaved (i : nat) (t : Tok)              (* WriteIntermediateState *)
 | EApplied (i : nat).                     (* applied bit set + intermediate state cleared, one batch *)
 
-(* the context: cancelled after [n] more persistent writes (None = never) *)
-Definition clock := option nat.
-Definition cancelled (c : clock) : bool := match c with Some O => true | _ => false end.
-Definition tick (c : clock) : clock := match c with Some (S n) => Some n | x => x end.
+(* the environment of one process lifetime, two countdowns in persistent writes (None = never):
+   fst: the context is cancelled after that many more writes;
+   snd: IoError — after that many more writes the store fails ONCE (the next write attempt, or a
+        read before it, returns an error) *)
+Definition clock := (option nat * option nat)%type.
+Definition cancelled (c : clock) : bool := match fst c with Some O => true | _ => false end.
+Definition faulted (c : clock) : bool := match snd c with Some O => true | _ => false end.
+Definition tick1 (c : option nat) : option nat := match c with Some (S n) => Some n | x => x end.
+Definition tick (c : clock) : clock := (tick1 (fst c), tick1 (snd c)).
+Definition disarm_clk (c : clock) : clock := (fst c, None).
+Definition no_intr : clock := (None, None).
+Definition cancel_after (n : nat) : clock := (Some n, None).
+Definition io_error_after (n : nat) : clock := (None, Some n).
 
 (* machine state of one process lifetime: persistent state, context clock, the persistent state
    after each write so far (newest first — the crash points), event log (newest first) *)
@@ -75,6 +84,9 @@ Record mstate := { ms_p : pstate; ms_clk : clock; ms_trace : list pstate; ms_log
 Definition write (f : pstate -> pstate) (st : mstate) : mstate :=
   let p := f (ms_p st) in
   {| ms_p := p; ms_clk := tick (ms_clk st); ms_trace := p :: ms_trace st; ms_log := ms_log st |}.
+(* the injected error has fired *)
+Definition disarm (st : mstate) : mstate :=
+  {| ms_p := ms_p st; ms_clk := disarm_clk (ms_clk st); ms_trace := ms_trace st; ms_log := ms_log st |}.
 Definition emit (e : event) (st : mstate) : mstate :=
   {| ms_p := ms_p st; ms_clk := ms_clk st; ms_trace := ms_trace st; ms_log := e :: ms_log st |}.
 
@@ -113,7 +125,10 @@ Fixpoint invoke (m : migration) (i : nat) (fuel : nat) (st : mstate) (tok : opti
   | O => (st, None)
   | S f =>
     let c := cancelled (ms_clk st) in
-    let '(db', o) := mig_step m (pdb (ms_p st)) tok c in
+    let flt := faulted (ms_clk st) in
+    (* an I/O error stops the migration like a cancellation of its pipeline does (a stage error
+       calls the pipeline's cancel): it winds down — it may still flush — and returns the error *)
+    let '(db', o) := mig_step m (pdb (ms_p st)) tok (c || flt) in
     if c then
       (* wind-down; a flush is one more (atomic) write, the clock stays at 0 *)
       let st' := emit (EReturn i o) (write (with_db db') st) in
@@ -123,6 +138,9 @@ Fixpoint invoke (m : migration) (i : nat) (fuel : nat) (st : mstate) (tok : opti
                   | Failed => (None, EOther)
                   | NilWithCtxErr => (None, ECtx)
                   end))
+    else if flt then
+      (* IoError: Migrate returns (nil, err) whatever the wind-down produced *)
+      (emit (EReturn i Failed) (disarm (write (with_db db') st)), Some (None, EOther))
     else
       let st' := write (with_db db') st in
       match o with
@@ -139,6 +157,7 @@ Definition after_migrate (i : nat) (st : mstate) (tok : option Tok) (e : errk) :
   let c := cancelled (ms_clk st) in
   let abort := match e with ENil => false | ECtx => negb c | EOther => true end in
   if abort then (st, Some RFailed)               (* err != nil && !errors.Is(err, ctx.Err()) *)
+  else if faulted (ms_clk st) then (disarm st, Some RFailed)   (* the runner's own write fails *)
   else match tok with
        | Some t =>                                (* intermediateState != nil *)
            let st' := emit (ESaved i t) (write (save_inter i t) st) in
@@ -180,6 +199,7 @@ Definition run_boot (es : list migration) (fuel : nat) (enabled : N) (c : clock)
   if beyond_registry target (last s) (length es) then (st0, RRefusedDowngrade)
   else if opt_out_attempt target (last s) (length es) then (st0, RRefusedOptOut)
   else if negb (vcontains target (cur s)) then (st0, RRefusedDowngrade)
+  else if faulted c then (disarm st0, RFailed)                (* writing schema metadata fails *)
   else
     let st := write (with_last target) st0 in                 (* LastTargetVersion first *)
     match bits_of (vdiff target (cur s)) with
@@ -188,7 +208,8 @@ Definition run_boot (es : list migration) (fuel : nat) (enabled : N) (c : clock)
     end.
 
 (* a schedule: a list of process lifetimes, each with the optional-migration flags, the moment the
-   context is cancelled and the moment the process dies (after that many persistent writes) *)
+   context is cancelled, the moment the store fails once (both in [b_cancel]) and the moment the
+   process dies (after that many persistent writes) *)
 Record boot := { b_enabled : N; b_cancel : clock; b_crash : option nat }.
 
 Definition boot_end (es : list migration) (fuel : nat) (s : pstate) (b : boot) : pstate :=
@@ -415,3 +436,12 @@ Definition sdl_migrate (checkpoint : nat) (db : sdb) : option sdb :=
 Definition filled (b : sblock) : bool := N.eqb (s_sdl b) (s_len b).
 Definition sdl_done (db : sdb) : bool :=
   forallb (fun o => match o with None => true | Some b => filled b end) db.
+
+(* statedifflength.Migrate, after the pipeline returned Result{IsDone, Err} and with nextBlock the
+   block the source would have emitted next: the error is looked at FIRST; only an error-free,
+   not-done result (graceful interruption) is turned into a checkpoint *)
+Inductive sdl_ret := SdlError | SdlCheckpoint (next : nat) | SdlDone.
+Definition sdl_decide (is_done has_err : bool) (next : nat) : sdl_ret :=
+  if has_err then SdlError                     (* return nil, res.Err *)
+  else if negb is_done then SdlCheckpoint next (* return encodeResume(nextBlock), nil *)
+  else SdlDone.                                (* return nil, nil *)
